@@ -124,6 +124,9 @@ def run(ctx):
             st = lc.decide(ctx, exe, "C12g%d" % (s // step), groups[s:s + step], MODE, known, nontrivial=nontrivial)
             for k in st:
                 tot[k] = tot.get(k, 0) + st[k]
+        # the full ledger.Ledger (state + chain ledger): Ledger.Rollback, PersistBlockData, ledger.New on reopen
+        fh = lc.full_fixed_histories() + [lc.gen_full_history(r, True) for _ in range(6 if ctx.quick else 150)]
+        dist["full_ledger"] = lc.decide_full(ctx, exe, "C12f", fh, MODE, known, nontrivial=nontrivial)
         exact_groups = [f(r) for f in lc.EXACT_SCENARIOS for _ in range(6 if ctx.quick else 80)]
         dist["exact_presence"] = lc.decide(ctx, exe, "C12x", exact_groups, MODE | 16, known, nontrivial=nontrivial)
         # printable keys that look like hex literals (journal key encodings must not confuse them)
